@@ -143,6 +143,15 @@ def handle (op : String) (fs : List (String × String)) : String :=
         match components g with
         | none => "nil"
         | some l => "[" ++ ".".intercalate (l.map toString) ++ "]")
+  else if op == "glyf.fixenc" then
+    -- direct predicate: the rewritten list (C11_components keeps it well-formed) round-trips
+    -- (C11_roundtrip) and its loca offsets are even (C11_loca)
+    match (getField fs "gs").bind parseGlyphs, (getField fs "map").bind parseMap with
+    | some gs, some m =>
+      let f := fun (k : Nat) => ((m.find? (·.1 == k)).map (·.2)).getD 0
+      let out := gs.map (fixComponents f)
+      if wfGlyphs out then "ok:" ++ showGlyphs out ++ "|even" else "not-wf"
+    | _, _ => "bad-case"
   else if op == "glyf.fixpure" then
     -- direct predicate: `fixComponents` is a function, so the input is unchanged by a call and a
     -- second call returns the same glyphs (what the harness observes on the real code)
